@@ -275,7 +275,7 @@ M("g1-not-rejecting", "C16", "fire G1", "src/register_circuit.rs",
                     }""", "out-of-range NOT operand is skipped instead of rejected")
 M("g2-y-not-looked-up", "C16", "fire G2", "src/register_circuit.rs",
   """                    if !register_set[y] {
-                        return Err(CircuitError::InvalidRegAccess(i, x));
+                        return Err(CircuitError::InvalidRegAccess(i, y));
                     }
 """, "", "second operand may be an unwritten register")
 M("g2-mark-before-lookup", "C16", "fire G2", "src/register_circuit.rs",
@@ -309,7 +309,7 @@ M("g1-reorder-checks", "C16", "quiet", "src/register_circuit.rs",
                         return Err(CircuitError::InvalidRegAccess(i, x));
                     }
                     if !register_set[y] {
-                        return Err(CircuitError::InvalidRegAccess(i, x));
+                        return Err(CircuitError::InvalidRegAccess(i, y));
                     }""",
   """                    if !register_set[y] {
                         return Err(CircuitError::InvalidRegAccess(i, y));
